@@ -29,6 +29,9 @@
 //! - f64 division by zero produces ±inf/NaN in both paths (never null).
 //! - numeric comparisons require identical arrow types on both sides;
 //!   anything the interpreter would coerce falls back to the interpreter.
+//! - f64 comparisons use the IEEE-754 total order (`f64::total_cmp`), as
+//!   arrow's `cmp` kernels do: NaN is the greatest value and equals itself,
+//!   and -0.0 < +0.0. Rust's `<`/`==` on f64 would disagree on those rows.
 //!
 //! `QE_COMPILE=0` disables compilation everywhere (the established
 //! diagnostic-switch pattern): consumers ask [`compilation_enabled`].
@@ -399,6 +402,15 @@ impl Compiler {
     }
 }
 
+/// Maps an f64 to an i64 whose integer order is `f64::total_cmp`'s order —
+/// the order arrow's `cmp` kernels (the interpreter) compare floats in:
+/// -NaN < -inf < .. < -0.0 < +0.0 < .. < +inf < +NaN, NaN equal to itself.
+#[inline(always)]
+fn f64_total_order_key(v: f64) -> i64 {
+    let bits = v.to_bits() as i64;
+    bits ^ (((bits >> 63) as u64) >> 1) as i64
+}
+
 fn lit_f64(v: &ScalarValue) -> Option<f64> {
     match v {
         ScalarValue::Float64(x) => Some((*x).into()),
@@ -554,27 +566,31 @@ impl CompiledPredicate {
             Scalar(i32),
         }
 
+        // `$key` maps an operand to the value the operator is applied to:
+        // identity for integers, the total-order key for f64.
         macro_rules! cmp_shapes {
-            ($a:expr, $b:expr, $dst:expr, $OpTy:ident, $cmp:tt) => {{
+            ($a:expr, $b:expr, $dst:expr, $OpTy:ident, $key:expr, $cmp:tt) => {{
                 let d = &mut m[$dst as usize];
                 match ($a, $b) {
                     ($OpTy::Slice(x), $OpTy::Slice(y)) => {
                         for i in 0..len {
-                            d[i] = (x[i] $cmp y[i]) as u8;
+                            d[i] = ($key(x[i]) $cmp $key(y[i])) as u8;
                         }
                     }
                     ($OpTy::Slice(x), $OpTy::Scalar(y)) => {
+                        let y = $key(y);
                         for i in 0..len {
-                            d[i] = (x[i] $cmp y) as u8;
+                            d[i] = ($key(x[i]) $cmp y) as u8;
                         }
                     }
                     ($OpTy::Scalar(x), $OpTy::Slice(y)) => {
+                        let x = $key(x);
                         for i in 0..len {
-                            d[i] = (x $cmp y[i]) as u8;
+                            d[i] = (x $cmp $key(y[i])) as u8;
                         }
                     }
                     ($OpTy::Scalar(x), $OpTy::Scalar(y)) => {
-                        let v = (x $cmp y) as u8;
+                        let v = ($key(x) $cmp $key(y)) as u8;
                         d[..len].fill(v);
                     }
                 }
@@ -583,14 +599,14 @@ impl CompiledPredicate {
         // The operator match happens ONCE per chunk; every inner loop is
         // monomorphic and vectorizes.
         macro_rules! cmp_loop {
-            ($a:expr, $b:expr, $op:expr, $dst:expr, $OpTy:ident) => {{
+            ($a:expr, $b:expr, $op:expr, $dst:expr, $OpTy:ident, $key:expr) => {{
                 match $op {
-                    Cmp::Eq => cmp_shapes!($a, $b, $dst, $OpTy, ==),
-                    Cmp::Ne => cmp_shapes!($a, $b, $dst, $OpTy, !=),
-                    Cmp::Lt => cmp_shapes!($a, $b, $dst, $OpTy, <),
-                    Cmp::Le => cmp_shapes!($a, $b, $dst, $OpTy, <=),
-                    Cmp::Gt => cmp_shapes!($a, $b, $dst, $OpTy, >),
-                    Cmp::Ge => cmp_shapes!($a, $b, $dst, $OpTy, >=),
+                    Cmp::Eq => cmp_shapes!($a, $b, $dst, $OpTy, $key, ==),
+                    Cmp::Ne => cmp_shapes!($a, $b, $dst, $OpTy, $key, !=),
+                    Cmp::Lt => cmp_shapes!($a, $b, $dst, $OpTy, $key, <),
+                    Cmp::Le => cmp_shapes!($a, $b, $dst, $OpTy, $key, <=),
+                    Cmp::Gt => cmp_shapes!($a, $b, $dst, $OpTy, $key, >),
+                    Cmp::Ge => cmp_shapes!($a, $b, $dst, $OpTy, $key, >=),
                 }
             }};
         }
@@ -658,7 +674,7 @@ impl CompiledPredicate {
                         Src::Reg(r) => FOp::Slice(&f[*r as usize][..len]),
                         other => resolve(other),
                     };
-                    cmp_loop!(a_op, b_op, op, *dst, FOp);
+                    cmp_loop!(a_op, b_op, op, *dst, FOp, f64_total_order_key);
                 }
                 Instr::CmpI64 { a, b, op, dst } => {
                     let resolve = |src: &Src| -> IOp<'_> {
@@ -672,7 +688,7 @@ impl CompiledPredicate {
                         }
                     };
                     let (a_op, b_op) = (resolve(a), resolve(b));
-                    cmp_loop!(a_op, b_op, op, *dst, IOp);
+                    cmp_loop!(a_op, b_op, op, *dst, IOp, std::convert::identity);
                 }
                 Instr::CmpI32 { a, b, op, dst } => {
                     let resolve = |src: &Src| -> I32Op<'_> {
@@ -689,7 +705,7 @@ impl CompiledPredicate {
                         }
                     };
                     let (a_op, b_op) = (resolve(a), resolve(b));
-                    cmp_loop!(a_op, b_op, op, *dst, I32Op);
+                    cmp_loop!(a_op, b_op, op, *dst, I32Op, std::convert::identity);
                 }
                 Instr::And { a, b, dst } => {
                     let (ops, dsts) = m.split_at_mut(*dst as usize);
